@@ -52,34 +52,12 @@ def d3_1(ctx):
 @rule(P, "D3.2", "T-ALLPATHS", floor=3)
 def d3_2(ctx):
     """_parse_requested_tags: ids by position, the record is stored on every path of every iteration; _parse_tag_request raises only RequestError."""
-    fn = ctx.model.func(f"{LX}:LogixDriver._parse_requested_tags")
-    f = fn.node
-    loops = [n for n in f.body if isinstance(n, ast.For)]
-    good = len(loops) == 1 and isinstance(loops[0].iter, ast.Call) and call_name(loops[0].iter) == "enumerate" and atom_name(loops[0].iter.args[0]) == f.args.args[1].arg and len(loops[0].iter.args) == 1
-    if not good:
-        ctx.violation(ckey(fn, "loop"), f, "requests are not enumerated by position with enumerate(tags)")
-        return
-    lp = loops[0]
-    i = atom_name(lp.target.elts[0])
-    tagv = atom_name(lp.target.elts[1])
-    g = ctx.cfg(f)
-    header = g.nodes_of(lp)[0]
-    stores = [n for n in g.nodes if n.kind == "stmt" and isinstance(n.ast, ast.Assign) and isinstance(n.ast.targets[0], ast.Subscript) and atom_name(n.ast.targets[0].value) == "requests" and atom_name(n.ast.targets[0].slice) == i]
-    start = [s for s, lab in header.succ if lab is True]
-    ok = bool(stores) and bool(start)
-    if ok:
-        w = g.must_pass(set(stores), start=start[0], sinks={header, g.exit, g.raise_exit})
-        ok = w is None
-    ctx.check(ok, ckey(fn, "store-all-paths"), stores[0].ast if stores else lp, "requests[i] is stored on every path of the iteration (also when parsing raises)", "a path through one iteration does not store requests[i]: that request gets no result (later KeyError / shifted results)")
-    rec = [n for n in walk(lp) if isinstance(n, ast.Assign) and isinstance(n.value, ast.Dict) and any(ctx.folder.eval(k, fn.module) == "request_id" for k in n.value.keys if k is not None)]
-    good = False
-    if rec:
-        d = {ctx.folder.eval(k, fn.module): atom_name(v) for k, v in zip(rec[0].value.keys, rec[0].value.values) if k is not None}
-        good = d.get("request_id") == i and d.get("request_tag") == tagv and atom_name(rec[0].targets[0]) == atom_name(stores[0].ast.value) if stores else False
-    ctx.check(good, ckey(fn, "ids"), rec[0] if rec else lp, "record carries request_id = position and the request text", "the request record does not carry request_id = its position")
-    errh = [h for h in walk(lp) if isinstance(h, ast.ExceptHandler)]
-    good = len(errh) == 1 and attr_path(errh[0].type) == "RequestError" and any(isinstance(s, ast.Assign) and isinstance(s.targets[0], ast.Subscript) and ctx.folder.eval(s.targets[0].slice, fn.module) == "error" for s in errh[0].body)
-    ctx.check(good, ckey(fn, "error-recorded"), errh[0] if errh else lp, "a RequestError of one request is recorded as that request's error", "a failing request is not recorded with an `error` entry")
+    # numbering by position, one record per requested tag on every path, a failing tag recorded as that tag's error: decided by
+    # folding `_parse_requested_tags` on witness requests (D1.17: several tags with a bad one in the middle) - an earlier form
+    # required `enumerate(tags)` and a `finally:` store and alarmed when the record was stored first and filled in place
+    from .driver import d1_17
+
+    d1_17(ctx)
     ptr = ctx.model.func(f"{LX}:LogixDriver._parse_tag_request")
     probs = wrap_problems(ptr.node, WrapSpec(mode="raise", allowed_raise={"RequestError"}, passthrough={"RequestError"}))
     if probs:
